@@ -902,7 +902,7 @@ fn main() {
         std::process::exit(probe());
     }
     let mut rng = Rng::new(args.seed);
-    let mut sink = Sink::new(&args, "KV.C49.Model", 400);
+    let mut sink = Sink::new(&args, "KV.C49.Model", 150);
     sink.rule = "epochs on one real IdmServer with the shipped access profiles: subject account (person / service account / anonymous) gets a random validity window (open, one-sided, two-sided, empty, single instant; whole-second and sub-second bounds) after tokens were issued; every front end (interactive login incl. logins begun earlier, unix auth, LDAP password / anonymous / application / token binds, LDAP session revalidation, user auth token, API token, OAuth2 authorise / code exchange / refresh / introspect / userinfo, RADIUS token as 7 requester identities, POSIX token) is called at the bounds, bounds +-1 ns, +-1 s and random instants; then sessions are revoked and wrong passwords presented. non-trivial = the instant is outside the window or within 1 s of a bound".into();
     let n_epochs = if args.thorough { 260 } else { 44 };
     let servers = if args.thorough { 4 } else { 1 };
